@@ -5113,6 +5113,11 @@ get_trait_dict(trait_object *trait, void *closure)
 static int
 set_trait_dict(trait_object *trait, PyObject *value, void *closure)
 {
+    if (value == NULL) {
+        PyErr_SetString(
+            PyExc_TypeError, "Cannot delete the __dict__ attribute.");
+        return -1;
+    }
     if (!PyDict_Check(value)) {
         return dictionary_error();
     }
